@@ -9,9 +9,9 @@ ROT = {0: ("exec", "query", "sudo"), 1: ("query", "sudo", "exec"), 2: ("sudo", "
 
 CONTEXTS = [
     {"sender": "sender0", "funds": [], "height": 1, "storage": {}, "api_prefix": "cosmwasm", "balance": "0", "contract": "contract0"},
-    {"sender": "sender1", "funds": [["atom", "5"]], "height": 777, "storage": {"probe": "P1"}, "api_prefix": "osmo", "balance": "42", "contract": "contract1"},
+    {"sender": "sender1", "funds": [["atom", "5"]], "height": 777, "storage": {"probe": "P1"}, "api_prefix": "osmo", "balance": "42", "contract": "contract1", "tx": 17},
     {"sender": "sender0", "funds": [["btc", "1"], ["atom", "5"], ["atom", "2"]], "height": 777, "storage": {"probe": "P2"}, "api_prefix": "cosmwasm", "balance": "42", "contract": "contract0"},
-    {"sender": "sender1", "funds": [], "height": 1, "storage": {}, "api_prefix": "osmo", "balance": "0", "contract": "contract1"},
+    {"sender": "sender1", "funds": [], "height": 1, "storage": {}, "api_prefix": "osmo", "balance": "0", "contract": "contract1", "tx": None},
 ]
 FAIL_CONTEXTS = [dict(c, storage=dict(c["storage"], fail="1")) for c in CONTEXTS[:2]]
 
@@ -345,6 +345,7 @@ def expected_echo(part_disp, m, tup, ctx):
         "sender": ctx["sender"] if has_info else None,
         "funds": [list(f) for f in ctx["funds"]] if has_info else None,
         "height": ctx["height"],
+        "tx": ctx.get("tx", 3),
         "contract": ctx["contract"],
         "seen": ctx["storage"].get("probe"),
         "api_ok": ctx["api_prefix"] == "cosmwasm",
